@@ -16,8 +16,9 @@ import (
 func init() { register("C04", runC04) }
 
 type c04Alphabet struct {
-	fsA, fsB []fieldSpec
-	r        *Rng
+	fsA, fsB           []fieldSpec
+	r                  *Rng
+	idReadableCountNot int
 }
 
 const (
@@ -64,7 +65,11 @@ func (a *c04Alphabet) packet(kind int, dom uint32, tid uint16) []byte {
 		}
 	case c04BadBefore:
 		p := templatePkt(dom, tid, a.fsA)
-		return p[:20+r.Intn(4)] // 0..3 bytes of the record header
+		k := r.Intn(4) // 0..3 bytes of the record header
+		if k >= 2 {
+			a.idReadableCountNot++ // the id itself is on the wire, the count is not: NoEffect by the code's placement of the deletion
+		}
+		return p[:20+k]
 	case c04DataA:
 		return msgBytes(10, dom, 7, tid, dataBody(r, a.fsA, 1+r.Intn(2), 0))
 	case c04DataB:
@@ -161,6 +166,9 @@ func runC04(env *Env) {
 				env.Count("msg/" + c04KindName[s.kind])
 			}
 			emit(mode, "exhaustive/len"+string(rune('0'+len(prefix))), append(pk, probes(a)...))
+			for k := 0; k < a.idReadableCountNot; k++ {
+				env.Count("msg/bad-before-hdr/id-readable-count-not")
+			}
 		}
 		if len(prefix) == maxLen {
 			return
@@ -199,6 +207,9 @@ func runC04(env *Env) {
 			}
 		}
 		emit(mode, "random", append(pk, probes(a)...))
+		for k := 0; k < a.idReadableCountNot; k++ {
+			env.Count("msg/bad-before-hdr/id-readable-count-not")
+		}
 	}
 	_ = entities.VariableLength
 }
